@@ -181,7 +181,12 @@ def analyse(mod, run, label):
     for pred, field, enc, exact in TOTALS:
         pf = need_fn(mod, pred); ef = need_fn(mod, enc)
         try:
-            pp = total_poly(w, pf, field)
+            try: pp = total_poly(w, pf, field)
+            except Unbounded:
+                # the reported size may be stored by a file-local "fill the metadata" helper: evaluate the predictor with those inlined
+                m2, pf2 = with_helpers_inlined(mod, pf, label)
+                if m2 is None: raise
+                pp = total_poly(World(m2), pf2, field)
             try: ep = total_poly(w, ef, None)
             except Unbounded:
                 # the encoder may have been split into cursor-returning helpers: evaluate it with those inlined
@@ -240,7 +245,7 @@ def analyse(mod, run, label):
         units7 = [af0]
         for c7 in af0.calls():
             h7 = mod.fn(c7.get("callee") or "")
-            if h7 is not None and h7.internal and h7.blocks and h7 not in units7 and c7["nargs"] and all(from_param(af0, c7.ops[k_]) for k_ in range(c7["nargs"])): units7.append(h7)
+            if h7 is not None and h7.internal and h7.blocks and h7 not in units7 and c7["nargs"] and all(from_param(af0, c7.ops[k_]) for k_ in range(c7["nargs"]) if not c7.ops[k_]["t"].endswith("*")): units7.append(h7)      # (its integer arguments are our parameters)
         for af in units7:
           afi = w.fi(af).prepare()
           for i in af.insts():
@@ -330,21 +335,9 @@ def analyse(mod, run, label):
                         if c["k"] == "int": continue
                         worst_.append((u_.at(rt.block).ub(c), None))
             return worst_, nacc_, indirect_
-        try:
-            try: worst, nacc, indirect = write_bounds(w, B, ef)
-            except Unbounded:
-                # the encoder may pass its cursor through file-local helpers that return it: bound it with those inlined
-                m2, ef2 = with_helpers_inlined(mod, ef, label, only=carries_pointers)       # pure scalar helpers stay calls (named quantities)
-                if m2 is None: raise
-                w2 = World(m2); worst, nacc, indirect = write_bounds(w2, Bounds(w2), ef2)
-                run.observe("Z2 %s: bounded with its file-local helpers inlined" % enc)
-            for cal, ln in indirect:
-                run.observe("%s line %s: %s writes the destination through the pointer kept in a writer object; its bytes are assumed to lie below the byte count the writer reports (bit position / 8), which is what is bounded here" % (enc, ln, cal))
-        except Unbounded as e:
-            run.defer_broken("Z2 %s: output cursor not boundable: %s" % (enc, e)); continue
-        nmax += 1
-        bad = []; ncmp = 0
-        try:
+        def compare(worst):
+            """[(residue, q > 0?, bound, promise, difference)] for the first write whose bound exceeds the promise (empty when none does)"""
+            bad = []; ncmp = 0
             for r in range(M):
                 for qpos in (False, True):
                     if not qpos and r == 0: continue                      # count == 0 writes nothing (checked by the emptiness return)
@@ -367,11 +360,27 @@ def analyse(mod, run, label):
                             # input (a loop shape its block lemmas do not cover), not something an encoder can do: inconclusive
                             raise Unbounded("the bound of a write is not linear in the count (%r): the loop structure was not recognised" % p)
                         if not d.nonneg_coeffs():
-                            bad.append((r, qpos, p, S, d)); break
-                    if bad: break
-                if bad: break
+                            bad.append((r, qpos, p, S, d)); return bad, ncmp
+            return bad, ncmp
+        try:
+            try:
+                worst, nacc, indirect = write_bounds(w, B, ef)
+                bad, ncmp = compare(worst)
+            except Unbounded as e1:
+                # the encoder may pass its cursor through file-local helpers that return it: bound it with those inlined
+                m2, ef2 = with_helpers_inlined(mod, ef, label, only=carries_pointers)       # pure scalar helpers stay calls (named quantities)
+                if m2 is None: raise
+                w2 = World(m2)
+                try:
+                    worst, nacc, indirect = write_bounds(w2, Bounds(w2), ef2)
+                    bad, ncmp = compare(worst)
+                except Unbounded: raise e1
+                run.observe("Z2 %s: bounded with its file-local helpers inlined" % enc)
+            for cal, ln in indirect:
+                run.observe("%s line %s: %s writes the destination through the pointer kept in a writer object; its bytes are assumed to lie below the byte count the writer reports (bit position / 8), which is what is bounded here" % (enc, ln, cal))
         except Unbounded as e:
-            run.defer_broken("Z2 %s: %s" % (enc, e)); continue
+            run.defer_broken("Z2 %s: %s" % (enc, e if str(e).startswith("the bound") else "output cursor not boundable: %s" % e)); continue
+        nmax += 1
         sname = sizer.replace("w_", "varint", 1); sname = sname[:6] + sname[6].upper() + sname[7:]
         what = ""
         if bad:
